@@ -837,6 +837,7 @@ func (c *checkCtx) writeEvidence(total, ok, trivial int, by map[string]int, solv
 		"ownership: a message is a tree (distinct fields, list elements, the receiver and the buffer do not alias); foreign BinaryCodec implementations meet the interface schema",
 	}
 	trusted = append(base, trusted...)
+	trusted = append(trusted, leanCoverage(c.V.verifDir))
 	var samples []interface{}
 	n := 0
 	for _, o := range c.obs {
@@ -908,3 +909,26 @@ func writeLoadFailure(vdir, prop, tier string, err error) int {
 }
 
 var propExplanation = map[string]string{}
+
+// leanCoverage reports which named axioms of the prelude are proved in prelude/Prelude.lean
+// (checked by setup.sh and in the thorough tier) and which remain trusted.
+func leanCoverage(vdir string) string {
+	pb, err1 := os.ReadFile(filepath.Join(vdir, "prelude", "prelude.smt2"))
+	lb, err2 := os.ReadFile(filepath.Join(vdir, "prelude", "Prelude.lean"))
+	if err1 != nil || err2 != nil {
+		return "prelude axioms: none machine-checked (Prelude.lean missing)"
+	}
+	var unchecked []string
+	n, k := 0, 0
+	for _, f := range strings.Split(string(pb), ":named ")[1:] {
+		name := strings.TrimRight(strings.Fields(f)[0], ")")
+		n++
+		if strings.Contains(string(lb), "theorem "+name+" ") || strings.Contains(string(lb), "theorem "+name+"\n") {
+			k++
+		} else {
+			unchecked = append(unchecked, name)
+		}
+	}
+	sort.Strings(unchecked)
+	return fmt.Sprintf("prelude: %d of %d named axioms are theorems of prelude/Prelude.lean (List Int, Lean 4 core); trusted as stated: %s", k, n, strings.Join(unchecked, ", "))
+}
